@@ -45,7 +45,7 @@ PROPS = {
     "C06": {"units": ["U2", "U4", "U6", "U7", "U8"]},
     "C07": {"units": ["U9c", "U9d", "U9g", "U9h", "U16g", "U16h", "U10b"]},
     "C08": {"units": ["U10", "U10b"] + U9},
-    "C09": {"units": ["U10", "U10b"], "safety_units": ["U10", "U10b"]},
+    "C09": {"units": ["U10", "U10b"] + U9, "safety_units": ["U10", "U10b"]},
     "C20": {"units": ["U6", "U6b"]},
     "C10": {"units": U9},
     "C11": {"units": ["U1", "U2", "U3", "U4"], "safety_units": ["U1", "U2", "U3", "U4"]},
